@@ -96,28 +96,14 @@ func vfCVLAN(s string) string {
 	}
 }
 
-// ValidateMatchIndex is the exported entry point pkg/configmgr/conf.go:280 calls with the
-// candidate's SubscriberGroups before anything is applied.
+// ValidateMatchIndex is the exported entry point the commit path (pkg/configmgr) calls with the candidate's
+// SubscriberGroups before anything is applied.  The property constrains only WHETHER a configuration is rejected;
+// which defect is reported, how many, and the wording are free, so the error is projected to its class.
 func vfValidate(cfg *SubscriberGroupsConfig) string {
-	verr := ValidateMatchIndex(cfg)
-	if verr == nil {
-		return "valid"
+	if verr := ValidateMatchIndex(cfg); verr != nil {
+		return "rejected"
 	}
-	var s, c int
-	var prev, name string
-	msg := verr.Error()
-	if strings.Contains(msg, "]: invalid ") {
-		// subscriber-group %q vlans[%d]: invalid svlan|cvlan: ...   (/repo 461c9d7)
-		var which string
-		fmt.Sscanf(msg, "subscriber-group %q vlans[%d]: invalid %s", &name, &c, &which)
-		return fmt.Sprintf("malformed %s %d %s", vfEncode(name), c, strings.TrimSuffix(which, ":"))
-	}
-	if strings.Contains(msg, "cvlan any") {
-		fmt.Sscanf(msg, "subscriber-group VLAN collision on svlan %d cvlan any: claimed by both %q and %q", &s, &prev, &name)
-		return fmt.Sprintf("collision %d any %s %s", s, vfEncode(prev), vfEncode(name))
-	}
-	fmt.Sscanf(msg, "subscriber-group VLAN collision on svlan %d cvlan %d: claimed by both %q and %q", &s, &c, &prev, &name)
-	return fmt.Sprintf("collision %d c%d %s %s", s, c, vfEncode(prev), vfEncode(name))
+	return "valid"
 }
 
 // tokens f[p:] = G {name R {sv cv}}; R = -1 is a nil *SubscriberGroup entry in the map
